@@ -31,7 +31,8 @@ import builtins as _b   # noqa: E402
 EXC = {'Boom': Boom, 'CustomError': CustomError}
 for _n in ('AttributeError', 'NameError', 'KeyError', 'IndexError', 'LookupError', 'TypeError', 'ValueError',
            'UnboundLocalError', 'ZeroDivisionError', 'RuntimeError', 'OSError', 'AssertionError', 'StopIteration',
-           'ImportError', 'ArithmeticError', 'NotImplementedError'):
+           'ImportError', 'ArithmeticError', 'NotImplementedError', 'RecursionError', 'MemoryError', 'BufferError', 'EOFError',
+           'StopAsyncIteration', 'ReferenceError'):
     EXC[_n] = getattr(_b, _n)
 FALLTHROUGH = (AttributeError, NameError, LookupError, TypeError, ValueError)
 EXISTS_CATCH = (AttributeError, LookupError, TypeError, NameError)
